@@ -22,6 +22,8 @@ class Sage(Inc):
         run.need(len(chains) == 1, f"{self.fq}: expected one chain loop, found {len(chains)}")
         self.L, self.Lctx = chains[0]
         self.elem = ("elem", self.L.lid)
+        if self.L.iter[0] == "fn" and self.L.iter[1] == "enumerate":
+            self.elem = ("tget", ("elem", self.L.lid), 1)       # for position, feature in enumerate(chain)
         self.body = direct_events(self.L)
         # carried loss
         self.carried = None
